@@ -9,6 +9,7 @@ All statements are about the model functions of `C10/Model.lean` at the lawful i
 Specifications: the `Mem` predicates of `Shapes.lean` and `IsSupport*` below.
 -/
 set_option linter.style.haveILetI false
+set_option linter.unusedSectionVars false
 
 namespace C10
 open Model Model.C10
@@ -553,5 +554,327 @@ theorem cloud_none_iff (dir : V3 K) (pts : List (V3 K)) :
     letI := fieldNum K sq
     cloudId3 dir pts = none ↔ pts = [] := by
   cases pts <;> simp [cloudId3]
+
+/-! ## RoundShape / DilatedShape: Minkowski sum with a ball -/
+
+/-- **C10 (RoundShape / DilatedShape, 3-D)**, generic in the inner shape: let `S` be any set and `inner` any
+function that returns a support point of `S` in the *normalised* direction (that is what the code passes to
+the inner `local_support_point_toward`).  Then for every border radius `br ≥ 0` and every non-zero direction
+`RoundShape::local_support_point` (same code in `DilatedShape`) is a point of `S ⊕ B(br)` maximising `dir·p`
+over `S ⊕ B(br)`. -/
+theorem round_support3 (hs : LawfulSqrt sq) (S : V3 K → Prop) (inner : V3 K → V3 K) (br : K) (dir : V3 K)
+    (hbr : 0 ≤ br) (hd : dir.x ≠ 0 ∨ dir.y ≠ 0 ∨ dir.z ≠ 0) :
+    letI := fieldNum K sq
+    IsSupport3 sq S (normalize3 dir) (inner (normalize3 dir)) →
+    IsSupport3 sq (roundMem3 S br) dir (roundLocal3 inner br dir) := by
+  have hpos := sumsq3_pos hd
+  have hn := norm_pos_of hs hpos
+  have hnn := hs.sq_mul _ hpos.le
+  obtain ⟨e1, e2⟩ := unit_scale3 dir.x dir.y dir.z _ br hn hnn
+  have hnorm : @normalize3 K (fieldNum K sq) dir
+      = @V3.sdiv K (fieldNum K sq) dir (sq (dir.x * dir.x + dir.y * dir.y + dir.z * dir.z)) := rfl
+  rintro ⟨hmem, hmax⟩
+  rw [hnorm] at hmem hmax
+  unfold IsSupport3 roundLocal3 roundToward3
+  rw [hnorm]
+  set n := sq (dir.x * dir.x + dir.y * dir.y + dir.z * dir.z) with hndef
+  set s := inner (@V3.sdiv K (fieldNum K sq) dir n) with hsdef
+  have hcmp : ∀ p : V3 K, @V3.dot K (fieldNum K sq) (@V3.sdiv K (fieldNum K sq) dir n) p
+      = (@V3.dot K (fieldNum K sq) dir p) / n := by
+    intro p; simp only [V3.dot, V3.sdiv]; field_simp
+  have hmax' : ∀ q, S q → @V3.dot K (fieldNum K sq) dir q ≤ @V3.dot K (fieldNum K sq) dir s := by
+    intro q hq
+    have := hmax q hq
+    rwa [hcmp, hcmp, div_le_div_iff_of_pos_right hn] at this
+  constructor
+  · refine ⟨s, hmem, ?_⟩
+    simp only [V3.normSq, V3.dot, V3.sub, V3.add, V3.smul, V3.sdiv]
+    have : ∀ u v : K, u + v - u = v := fun u v => by ring
+    rw [this, this, this]
+    exact le_of_eq e2
+  · rintro p ⟨c, hc, hp⟩
+    have h1 := hmax' c hc
+    have h2 := dot_le3 dir.x dir.y dir.z (p.x - c.x) (p.y - c.y) (p.z - c.z) n br hn.le hbr hnn
+      (by simpa only [V3.normSq, V3.dot, V3.sub] using hp)
+    simp only [V3.dot, V3.add, V3.smul, V3.sdiv] at h1 ⊢
+    nlinarith [e1]
+
+/-- **C10 (RoundShape, 2-D)**. -/
+theorem round_support2 (hs : LawfulSqrt sq) (S : V2 K → Prop) (inner : V2 K → V2 K) (br : K) (dir : V2 K)
+    (hbr : 0 ≤ br) (hd : dir.x ≠ 0 ∨ dir.y ≠ 0) :
+    letI := fieldNum K sq
+    IsSupport2 sq S (normalize2 dir) (inner (normalize2 dir)) →
+    IsSupport2 sq (roundMem2 S br) dir (roundLocal2 inner br dir) := by
+  have hpos := sumsq2_pos hd
+  have hn := norm_pos_of hs hpos
+  have hnn := hs.sq_mul _ hpos.le
+  obtain ⟨e1, e2⟩ := unit_scale2 dir.x dir.y _ br hn hnn
+  have hnorm : @normalize2 K (fieldNum K sq) dir
+      = @V2.sdiv K (fieldNum K sq) dir (sq (dir.x * dir.x + dir.y * dir.y)) := rfl
+  rintro ⟨hmem, hmax⟩
+  rw [hnorm] at hmem hmax
+  unfold IsSupport2 roundLocal2 roundToward2
+  rw [hnorm]
+  set n := sq (dir.x * dir.x + dir.y * dir.y) with hndef
+  set s := inner (@V2.sdiv K (fieldNum K sq) dir n) with hsdef
+  have hcmp : ∀ p : V2 K, @V2.dot K (fieldNum K sq) (@V2.sdiv K (fieldNum K sq) dir n) p
+      = (@V2.dot K (fieldNum K sq) dir p) / n := by
+    intro p; simp only [V2.dot, V2.sdiv]; field_simp
+  have hmax' : ∀ q, S q → @V2.dot K (fieldNum K sq) dir q ≤ @V2.dot K (fieldNum K sq) dir s := by
+    intro q hq
+    have := hmax q hq
+    rwa [hcmp, hcmp, div_le_div_iff_of_pos_right hn] at this
+  constructor
+  · refine ⟨s, hmem, ?_⟩
+    simp only [V2.normSq, V2.dot, V2.sub, V2.add, V2.smul, V2.sdiv]
+    have : ∀ u v : K, u + v - u = v := fun u v => by ring
+    rw [this, this]
+    exact le_of_eq e2
+  · rintro p ⟨c, hc, hp⟩
+    have h1 := hmax' c hc
+    have h2 := dot_le2 dir.x dir.y (p.x - c.x) (p.y - c.y) n br hn.le hbr hnn
+      (by simpa only [V2.normSq, V2.dot, V2.sub] using hp)
+    simp only [V2.dot, V2.add, V2.smul, V2.sdiv] at h1 ⊢
+    nlinarith [e1]
+
+/-- **C10 (`RoundCuboid`)**: instance of `round_support3` — a rounded cuboid's support point is a member of
+`cuboid ⊕ B(br)` and maximal over it. -/
+theorem round_cuboid_support3 (hs : LawfulSqrt sq) (he : V3 K) (br : K) (dir : V3 K)
+    (hx : 0 ≤ he.x) (hy : 0 ≤ he.y) (hz : 0 ≤ he.z) (hbr : 0 ≤ br) (hd : dir.x ≠ 0 ∨ dir.y ≠ 0 ∨ dir.z ≠ 0) :
+    letI := fieldNum K sq
+    IsSupport3 sq (roundMem3 (Cuboid3.mk he).Mem br) dir (roundLocal3 (cuboidLocal3 he) br dir) :=
+  round_support3 sq hs _ _ br dir hbr hd (cuboid_support3 sq he _ hx hy hz)
+
+/-- **C10 (`RoundCylinder`)**. -/
+theorem round_cylinder_support (hs : LawfulSqrt sq) (hh r br : K) (dir : V3 K)
+    (hh0 : 0 ≤ hh) (hr : 0 ≤ r) (hbr : 0 ≤ br) (hd : dir.x ≠ 0 ∨ dir.y ≠ 0 ∨ dir.z ≠ 0) :
+    letI := fieldNum K sq
+    IsSupport3 sq (roundMem3 (Cylinder.mk hh r).Mem br) dir (roundLocal3 (cylinderLocal hh r) br dir) :=
+  round_support3 sq hs _ _ br dir hbr hd (cylinder_support sq hs hh r _ hh0 hr)
+
+/-- **C10 (`RoundCone`)**. -/
+theorem round_cone_support (hs : LawfulSqrt sq) (hh r br : K) (dir : V3 K)
+    (hh0 : 0 < hh) (hr : 0 ≤ r) (hbr : 0 ≤ br) (hd : dir.x ≠ 0 ∨ dir.y ≠ 0 ∨ dir.z ≠ 0) :
+    letI := fieldNum K sq
+    IsSupport3 sq (roundMem3 (Cone.mk hh r).Mem br) dir (roundLocal3 (coneLocal hh r) br dir) :=
+  round_support3 sq hs _ _ br dir hbr hd (cone_support sq hs hh r _ hh0 hr)
+
+/-- **C10 (`RoundTriangle`)**. -/
+theorem round_triangle_support3 (hs : LawfulSqrt sq) (a b c : V3 K) (br : K) (dir : V3 K)
+    (hbr : 0 ≤ br) (hd : dir.x ≠ 0 ∨ dir.y ≠ 0 ∨ dir.z ≠ 0) :
+    letI := fieldNum K sq
+    IsSupport3 sq (roundMem3 (Triangle3.mk a b c).Mem br) dir (roundLocal3 (triangleLocal3 a b c) br dir) :=
+  round_support3 sq hs _ _ br dir hbr hd (triangle_support3 sq a b c _)
+
+/-- **C10 (`RoundCuboid`, 2-D)**. -/
+theorem round_cuboid_support2 (hs : LawfulSqrt sq) (he : V2 K) (br : K) (dir : V2 K)
+    (hx : 0 ≤ he.x) (hy : 0 ≤ he.y) (hbr : 0 ≤ br) (hd : dir.x ≠ 0 ∨ dir.y ≠ 0) :
+    letI := fieldNum K sq
+    IsSupport2 sq (roundMem2 (Cuboid2.mk he).Mem br) dir (roundLocal2 (cuboidLocal2 he) br dir) :=
+  round_support2 sq hs _ _ br dir hbr hd (cuboid_support2 sq he _ hx hy)
+
+/-- **C10 (`RoundConvexPolyhedron`)**: `RoundShape<ConvexPolyhedron>::local_support_point` is the vertex chosen
+by the point-cloud argmax in the normalised direction, pushed out by `br` along it, and it is a support point of
+`hull(pts) ⊕ B(br)`. -/
+theorem round_polyhedron_support (hs : LawfulSqrt sq) (pts : List (V3 K)) (br : K) (dir : V3 K) (hne : pts ≠ [])
+    (hbr : 0 ≤ br) (hd : dir.x ≠ 0 ∨ dir.y ≠ 0 ∨ dir.z ≠ 0) :
+    letI := fieldNum K sq
+    ∃ p, cloudPoint3 (normalize3 dir) pts = some p ∧
+      IsSupport3 sq (roundMem3 (hullMem3 pts) br) dir (roundLocal3 (fun _ => p) br dir) := by
+  obtain ⟨i, p, _, _, h3, h4, _⟩ := cloud_support3 sq (@normalize3 K (fieldNum K sq) dir) pts hne
+  exact ⟨p, h3, round_support3 sq hs _ (fun _ => p) br dir hbr hd h4⟩
+
+/-! ## posed variants: `support_point(m, dir) = m · local_support_point(mᵀ dir)` -/
+
+/-- `dir · (R q) = (Rᵀ dir) · q` for the quaternion sandwich of `Vec.lean` — a polynomial identity, no
+unit-norm assumption needed. -/
+private theorem dot_rot3 (m : Iso3 K) (dir q : V3 K) :
+    letI := fieldNum K sq
+    dir.dot (m.rot q) = (m.invRot dir).dot q := by
+  simp only [Iso3.rot, Iso3.invRot, Iso3.rotQ, Iso3.qv, V3.dot, V3.cross, V3.smul, V3.add, V3.neg, fieldNum_two]
+  ring
+private theorem dot_rot2 (m : Iso2 K) (dir q : V2 K) :
+    letI := fieldNum K sq
+    dir.dot (m.rot q) = (m.invRot dir).dot q := by
+  simp only [Iso2.rot, Iso2.invRot, V2.dot]
+  ring
+
+/-- **C10 (posed support point, 3-D)**: the trait default `support_point(m, dir)` *is*
+`m · local_support_point(mᵀ dir)` (by definition of the model, checked bit-exactly against the code), and
+maximisation transfers through the pose: if the local function returns a support point of `S` in direction
+`mᵀ dir`, then the posed function returns a support point of the posed set `m·S = {m·q | q ∈ S}` in direction
+`dir`.  Holds for every quaternion (not only unit ones) and every translation. -/
+theorem posed_support3 (S : V3 K → Prop) (loc : V3 K → V3 K) (m : Iso3 K) (dir : V3 K) :
+    letI := fieldNum K sq
+    supportPoint3 loc m dir = m.act (loc (m.invRot dir)) ∧
+    (IsSupport3 sq S (m.invRot dir) (loc (m.invRot dir)) →
+      IsSupport3 sq (fun p => ∃ q, S q ∧ p = m.act q) dir (supportPoint3 loc m dir)) := by
+  refine ⟨rfl, ?_⟩
+  rintro ⟨hmem, hmax⟩
+  refine ⟨⟨_, hmem, rfl⟩, ?_⟩
+  rintro p ⟨q, hq, rfl⟩
+  have h := hmax q hq
+  rw [← dot_rot3 sq, ← dot_rot3 sq] at h
+  simp only [supportPoint3, Iso3.act, V3.dot, V3.add] at h ⊢
+  linarith
+
+/-- **C10 (posed support point, 2-D)**. -/
+theorem posed_support2 (S : V2 K → Prop) (loc : V2 K → V2 K) (m : Iso2 K) (dir : V2 K) :
+    letI := fieldNum K sq
+    supportPoint2 loc m dir = m.act (loc (m.invRot dir)) ∧
+    (IsSupport2 sq S (m.invRot dir) (loc (m.invRot dir)) →
+      IsSupport2 sq (fun p => ∃ q, S q ∧ p = m.act q) dir (supportPoint2 loc m dir)) := by
+  refine ⟨rfl, ?_⟩
+  rintro ⟨hmem, hmax⟩
+  refine ⟨⟨_, hmem, rfl⟩, ?_⟩
+  rintro p ⟨q, hq, rfl⟩
+  have h := hmax q hq
+  rw [← dot_rot2 sq, ← dot_rot2 sq] at h
+  simp only [supportPoint2, Iso2.act, V2.dot, V2.add] at h ⊢
+  linarith
+
+/-! ## `_toward` = plain at a unit direction -/
+
+private theorem sq_one (hs : LawfulSqrt sq) : sq 1 = 1 := by
+  have h1 := hs.nonneg 1 zero_le_one
+  have h2 := hs.sq_mul 1 zero_le_one
+  nlinarith
+
+/-- normalising a unit vector is the identity -/
+private theorem normalize3_unit (hs : LawfulSqrt sq) (d : V3 K) :
+    letI := fieldNum K sq
+    d.normSq = 1 → normalize3 d = d := by
+  intro h
+  simp only [normalize3, V3.norm, fieldNum_sqrt]
+  rw [h, sq_one sq hs]
+  cases d; simp [V3.sdiv]
+private theorem normalize2_unit (hs : LawfulSqrt sq) (d : V2 K) :
+    letI := fieldNum K sq
+    d.normSq = 1 → normalize2 d = d := by
+  intro h
+  simp only [normalize2, V2.norm, fieldNum_sqrt]
+  rw [h, sq_one sq hs]
+  cases d; simp [V2.sdiv]
+
+/-- **C10 (`_toward` = plain at unit `dir`, 3-D)**: for the shapes that override `local_support_point_toward`
+(ball, capsule, RoundShape/DilatedShape over any inner function) the plain variant at a unit direction returns
+exactly the `_toward` result.  (All other shapes use the trait default, where `_toward` *is* the plain function.) -/
+theorem toward_eq_local3 (hs : LawfulSqrt sq) (d : V3 K) (r : K) (a b : V3 K) (inner : V3 K → V3 K) :
+    letI := fieldNum K sq
+    d.normSq = 1 →
+      ballLocal3 r d = ballToward3 r d ∧
+      capsuleLocal3 a b r d = capsuleToward3 a b r d ∧
+      roundLocal3 inner r d = roundToward3 inner r d := by
+  intro h
+  have hn := normalize3_unit sq hs d h
+  refine ⟨by unfold ballLocal3; rw [hn], ?_, by unfold roundLocal3; rw [hn]⟩
+  have htn : @tryNew3 K (fieldNum K sq) d 0 = some d := by
+    simp only [tryNew3, fieldNum_sqrt]
+    rw [h, sq_one sq hs, if_pos (by norm_num)]
+    cases d; simp [V3.sdiv]
+  unfold capsuleLocal3; rw [htn]; rfl
+
+example : (@V3.normSq ℚ (fieldNum ℚ id) ⟨3/5, 0, -4/5⟩) = 1 := by
+  simp only [V3.normSq, V3.dot]; norm_num
+
+/-- **C10 (`_toward` = plain at unit `dir`, 2-D)**. -/
+theorem toward_eq_local2 (hs : LawfulSqrt sq) (d : V2 K) (r : K) (a b : V2 K) (inner : V2 K → V2 K) :
+    letI := fieldNum K sq
+    d.normSq = 1 →
+      ballLocal2 r d = ballToward2 r d ∧
+      capsuleLocal2 a b r d = capsuleToward2 a b r d ∧
+      roundLocal2 inner r d = roundToward2 inner r d := by
+  intro h
+  have hn := normalize2_unit sq hs d h
+  refine ⟨by unfold ballLocal2; rw [hn], ?_, by unfold roundLocal2; rw [hn]⟩
+  have htn : @tryNew2 K (fieldNum K sq) d 0 = some d := by
+    simp only [tryNew2, fieldNum_sqrt]
+    rw [h, sq_one sq hs, if_pos (by norm_num)]
+    cases d; simp [V2.sdiv]
+  unfold capsuleLocal2; rw [htn]; rfl
+
+/-! ## Ball and DilatedShape override the posed variants: they agree with the trait default -/
+
+private theorem v3_ext {a b : V3 K} (hx : a.x = b.x) (hy : a.y = b.y) (hz : a.z = b.z) : a = b := by
+  cases a; cases b; simp_all
+private theorem v2_ext {a b : V2 K} (hx : a.x = b.x) (hy : a.y = b.y) : a = b := by
+  cases a; cases b; simp_all
+
+/-- `R (Rᵀ d) = d` for a unit quaternion -/
+private theorem rot_invRot3 (m : Iso3 K) (d : V3 K)
+    (hq : m.qi * m.qi + m.qj * m.qj + m.qk * m.qk + m.qw * m.qw = 1) :
+    letI := fieldNum K sq
+    m.rot (m.invRot d) = d := by
+  apply v3_ext <;>
+    simp only [Iso3.rot, Iso3.invRot, Iso3.rotQ, Iso3.qv, V3.cross, V3.smul, V3.add, V3.neg, fieldNum_two]
+  · linear_combination (-4 * (m.qi * (m.qi * d.x + m.qj * d.y + m.qk * d.z) - (m.qi * m.qi + m.qj * m.qj + m.qk * m.qk) * d.x)) * hq
+  · linear_combination (-4 * (m.qj * (m.qi * d.x + m.qj * d.y + m.qk * d.z) - (m.qi * m.qi + m.qj * m.qj + m.qk * m.qk) * d.y)) * hq
+  · linear_combination (-4 * (m.qk * (m.qi * d.x + m.qj * d.y + m.qk * d.z) - (m.qi * m.qi + m.qj * m.qj + m.qk * m.qk) * d.z)) * hq
+
+/-- `|Rᵀ d|² = |d|²` for a unit quaternion -/
+private theorem normSq_invRot3 (m : Iso3 K) (d : V3 K)
+    (hq : m.qi * m.qi + m.qj * m.qj + m.qk * m.qk + m.qw * m.qw = 1) :
+    letI := fieldNum K sq
+    (m.invRot d).normSq = d.normSq := by
+  simp only [Iso3.invRot, Iso3.rotQ, Iso3.qv, V3.normSq, V3.dot, V3.cross, V3.smul, V3.add, V3.neg, fieldNum_two]
+  linear_combination (4 * ((m.qj * d.z - m.qk * d.y) * (m.qj * d.z - m.qk * d.y) + (m.qk * d.x - m.qi * d.z) * (m.qk * d.x - m.qi * d.z)
+    + (m.qi * d.y - m.qj * d.x) * (m.qi * d.y - m.qj * d.x))) * hq
+
+/-- rotations commute with `v ↦ v / n · r` -/
+private theorem rot_scale3 (m : Iso3 K) (v : V3 K) (n r : K) :
+    letI := fieldNum K sq
+    m.rot ((v.sdiv n).smul r) = ((m.rot v).sdiv n).smul r := by
+  apply v3_ext <;>
+    simp only [Iso3.rot, Iso3.rotQ, Iso3.qv, V3.cross, V3.smul, V3.sdiv, V3.add, fieldNum_two] <;> ring
+private theorem invRot_scale3 (m : Iso3 K) (v : V3 K) (n : K) :
+    letI := fieldNum K sq
+    m.invRot (v.sdiv n) = (m.invRot v).sdiv n := by
+  apply v3_ext <;>
+    simp only [Iso3.invRot, Iso3.rotQ, Iso3.qv, V3.cross, V3.smul, V3.sdiv, V3.add, V3.neg, fieldNum_two] <;> ring
+
+private theorem rot_add3 (m : Iso3 K) (a b : V3 K) :
+    letI := fieldNum K sq
+    m.rot (a.add b) = (m.rot a).add (m.rot b) := by
+  apply v3_ext <;>
+    simp only [Iso3.rot, Iso3.rotQ, Iso3.qv, V3.cross, V3.smul, V3.add, fieldNum_two] <;> ring
+
+/-- **C10 (Ball, posed)**: `Ball` overrides `support_point` with `translation + dir/|dir| · r`; for every unit
+quaternion this equals the trait default `m · local_support_point(mᵀ dir)`, so `posed_support3` applies to it. -/
+theorem ball_posed_eq_default3 (r : K) (m : Iso3 K) (dir : V3 K)
+    (hq : m.qi * m.qi + m.qj * m.qj + m.qk * m.qk + m.qw * m.qw = 1) :
+    letI := fieldNum K sq
+    ballPosed3 r m dir = supportPoint3 (ballLocal3 r) m dir := by
+  have h1 := normSq_invRot3 sq m dir hq
+  simp only [ballPosed3, ballPosedToward3, supportPoint3, ballLocal3, ballToward3, normalize3, V3.norm, Iso3.act]
+  rw [h1, rot_scale3 sq, rot_invRot3 sq m dir hq]
+  apply v3_ext <;> simp only [V3.add] <;> ring
+
+example : ((0:ℚ) * 0 + (3/5) * (3/5) + 0 * 0 + (4/5) * (4/5) = 1) := by norm_num
+
+/-- **C10 (DilatedShape, posed)**: `DilatedShape` overrides `support_point` with
+`inner.support_point_toward(m, d̂) + d̂ · radius` (`d̂ = dir/|dir|`); for every unit quaternion this equals the trait
+default `m · local_support_point(mᵀ dir)` of the dilated shape. -/
+theorem dilated_posed_eq_default3 (inner : V3 K → V3 K) (rad : K) (m : Iso3 K) (dir : V3 K)
+    (hq : m.qi * m.qi + m.qj * m.qj + m.qk * m.qk + m.qw * m.qw = 1) :
+    letI := fieldNum K sq
+    dilatedPosed3 inner rad m dir = supportPoint3 (roundLocal3 inner rad) m dir := by
+  have h1 := normSq_invRot3 sq m dir hq
+  simp only [dilatedPosed3, dilatedPosedToward3, supportPointToward3, supportPoint3, roundLocal3, roundToward3,
+    normalize3, V3.norm, Iso3.act]
+  rw [h1, invRot_scale3 sq, rot_add3 sq, rot_scale3 sq, rot_invRot3 sq m dir hq]
+  apply v3_ext <;> simp only [V3.add] <;> ring
+
+/-- **C10 (Ball, posed, 2-D)**: same for a unit complex rotation. -/
+theorem ball_posed_eq_default2 (r : K) (m : Iso2 K) (dir : V2 K) (hq : m.re * m.re + m.im * m.im = 1) :
+    letI := fieldNum K sq
+    ballPosed2 r m dir = supportPoint2 (ballLocal2 r) m dir := by
+  have h1 : @V2.normSq K (fieldNum K sq) (@Iso2.invRot K (fieldNum K sq) m dir) = @V2.normSq K (fieldNum K sq) dir := by
+    simp only [Iso2.invRot, V2.normSq, V2.dot]
+    linear_combination (dir.x * dir.x + dir.y * dir.y) * hq
+  simp only [ballPosed2, ballPosedToward2, supportPoint2, ballLocal2, ballToward2, normalize2, V2.norm, Iso2.act]
+  rw [h1]
+  apply v2_ext <;> simp only [V2.add, V2.smul, V2.sdiv, Iso2.rot, Iso2.invRot]
+  · linear_combination (-(dir.x / @Num.sqrt K (fieldNum K sq) (@V2.normSq K (fieldNum K sq) dir) * r)) * hq
+  · linear_combination (-(dir.y / @Num.sqrt K (fieldNum K sq) (@V2.normSq K (fieldNum K sq) dir) * r)) * hq
 
 end C10
